@@ -1,4 +1,4 @@
-//! Targets `quote_seq`, `quote_map`, umbrella `quote` (diagnostic: `quote_obs`):
+//! Targets `quote_seq`, `quote_map`, umbrella `quote` (diagnostic: `quote_obs`, `quote_strict`):
 //! quotations (`Quotable::quote` on an Array / a Text) and map links
 //! (`Map::link`) always show the current content of their source (property C20).
 //!
@@ -27,9 +27,13 @@
 //! the elements inserted so far and agrees with the visible content of both
 //! replicas, otherwise the cases that need it are left open (`probe_gaps`).
 //! `quote` itself: never panics; a range whose indexes all exist and whose end is
-//! not in front of its start is accepted; an inverted range is refused; an index
-//! >= length has no boundary element: Ok/Err is not asserted (a quotation that is
-//! nevertheless returned is stored and only has to dereference without a panic).
+//! not in front of its start is accepted (Ok/Err is left open for a range that is
+//! empty by construction - both bounds on the same element, not both included -
+//! which, when accepted, must stay empty for ever); an inverted range (end index <
+//! start index) is refused; an index >= length has no boundary element: Ok/Err is
+//! not asserted (a quotation that is nevertheless returned is stored and only has
+//! to dereference without a panic). `XmlFragment` / `XmlElement` child lists are
+//! not `Quotable` in this tree (only ArrayRef, TextRef, XmlTextRef are).
 //! Independently: the source always holds exactly the elements the replica was
 //! told (inserted minus removed), local edits have their sequential effect,
 //! storing / deleting a quotation leaves the source untouched on both replicas.
@@ -38,10 +42,22 @@
 //! `try_deref_value` equals the replica's current `sm.get(key)` (`None` once the
 //! entry is removed), and `get` equals the value written last locally.
 //!
-//! Observers (`quote_obs`, and part of the other targets when `observers` is
-//! set in the case): an observer registered on the stored quotation fires at
-//! least once in a transaction that inserts or removes a visible element
-//! strictly inside the range; further calls are tolerated.
+//! Observers (diagnostic target `quote_obs`, or `"observers":true` in a case; NOT part of `quote`):
+//! an observer registered on the stored quotation / link fires at least once in a transaction
+//! that inserts or removes a visible element strictly inside the range (that changes the entry's
+//! value); further calls are tolerated. The unchanged tree of 2026-09-26 does not meet this clause
+//! (see KNOWN-OBSERVERS below), so `quote_obs` reports a disagreement there by design.
+//!
+//! `quote_strict`: `quote` without the two skips listed under KNOWN (text renderings).
+//!
+//! KNOWN-OBSERVERS (unchanged tree, each is the shortest history `quote_obs` style):
+//! (1) an insertion at the open side of an unbounded range has no linked neighbour on that side
+//! (`Item::integrate` joins a new item to a quoted range only when BOTH neighbours exist):
+//! `quote(..)` of an empty array stored, `insert(0, x)`: 0 observer calls, although `unquote`
+//! shows x; the same for appends behind `a..` and prepends in front of `..b`;
+//! (2) splitting a linked block leaves its right half unlinked: text "ab", `quote(0..=1)` stored,
+//! `insert(1, "c")`: 0 calls; "abc", `quote(0..2)` stored, `remove_range(1, 2)`: 0 calls;
+//! (3) nothing is linked at all for an excluded start whose anchor ends a block (K-a below).
 
 use crate::evt::{at, bfs, fail, finish, finish_replay, guarded, Found, Hunt, Space};
 use crate::json::J;
@@ -1481,6 +1497,20 @@ impl<'a> World<'a> {
                 if (removed.is_empty() && added.is_empty()) || now > before_calls {
                     continue;
                 }
+                if std::env::var_os("VX_QUOTE_COLLECT").is_some() {
+                    eprintln!(
+                        "observer\t{}\tquoted_on={}\tbefore={}\tafter={}\tadded={}\tremoved={}\treplica={}\tsteps={}",
+                        range_rust(&tr.range),
+                        elems_json(kind, &tr.quoted_on),
+                        elems_json(kind, &self.last[r]),
+                        elems_json(kind, &contents[r]),
+                        elems_json(kind, &added),
+                        elems_json(kind, &removed),
+                        r + 1,
+                        J::Arr(self.case.steps.iter().map(|s| s.json()).collect())
+                    );
+                    continue;
+                }
                 return Err(fail(
                     "the observer of a quotation is not notified of a change strictly inside its range",
                     api,
@@ -2331,53 +2361,13 @@ fn configs(target: &str, universe: u32) -> Vec<Config> {
             });
         }
     };
-    if target != "quote_map" {
-        use Host::{Array as HA, Map as HM};
-        use Kind::{Array as KA, Text as KT};
-        // iterative deepening: every combination with one edit first, then deeper ones
-        // (edits before the quote step, edits per history); the table is sized by measurement:
-        // universe 6 about 45 s with 8 jobs on a busy machine
-        for (kind, host, clients, gc) in [(KA, HM, [1, 2], true), (KT, HA, [1, 2], true), (KA, HA, [2, 1], true), (KT, HM, [2, 1], false)] {
-            seq(&mut out, "one_range", kind, host, clients, gc, false, 1, 1);
-        }
-        for (kind, host, clients, gc) in [(KA, HM, [1, 2], true), (KT, HM, [1, 2], true), (KA, HA, [2, 1], false), (KT, HA, [2, 1], true)] {
-            seq(&mut out, "all_ranges", kind, host, clients, gc, true, 1, 1);
-        }
-        if u >= 5 {
-            let d = if u >= 6 { 3 } else { 2 };
-            seq(&mut out, "one_range", KA, HM, [1, 2], true, false, 2, d);
-            if u >= 7 {
-                seq(&mut out, "one_range", KT, HA, [1, 2], true, false, 2, 3);
-            } else {
-                seq(&mut out, "one_range", KT, HA, [1, 2], true, false, 2, 2);
-                if u >= 6 {
-                    seq(&mut out, "one_range", KT, HA, [1, 2], true, false, 1, 3);
-                }
-            }
-            seq(&mut out, "one_range", KA, HA, [2, 1], true, false, 2, 2);
-            seq(&mut out, "one_range", KT, HM, [2, 1], false, false, 2, 2);
-            seq(&mut out, "all_ranges", KA, HM, [1, 2], true, true, 2, d);
-            seq(&mut out, "all_ranges", KT, HM, [1, 2], true, true, 2, d);
-            seq(&mut out, "all_ranges", KA, HA, [2, 1], false, true, 2, 2);
-            seq(&mut out, "all_ranges", KT, HA, [2, 1], true, true, 2, 2);
-        }
-        if u >= 7 {
-            seq(&mut out, "all_ranges", KA, HM, [1, 2], true, true, 3, 3);
-            seq(&mut out, "all_ranges", KT, HM, [1, 2], true, true, 3, 3);
-            seq(&mut out, "all_ranges", KA, HM, [2, 1], true, true, 2, 4);
-        }
-        if u >= 8 {
-            seq(&mut out, "all_ranges", KT, HM, [2, 1], true, true, 2, 4);
-        }
-    }
-    if target != "quote_seq" {
-        let ops = u.saturating_sub(2).clamp(1, 6); // universe 6: 4 operations
-        let less = ops.saturating_sub(1).max(1);
-        for (host, clients, gc, total) in [
-            (Host::Map, [1u64, 2u64], true, ops),
-            (Host::Array, [2, 1], true, less),
-            (Host::Map, [2, 1], false, less),
-        ] {
+    use Host::{Array as HA, Map as HM};
+    use Kind::{Array as KA, Text as KT};
+    let with_seq = target != "quote_map";
+    let with_map = target != "quote_seq";
+    let ops = u.saturating_sub(2).clamp(1, 6); // universe 6: 4 operations
+    let maps = |out: &mut Vec<Config>, total: usize| {
+        for (host, clients, gc) in [(HM, [1u64, 2u64], true), (HA, [2, 1], true), (HM, [2, 1], false)] {
             out.push(Config {
                 stage: "map_links",
                 kind: Kind::Map,
@@ -2389,6 +2379,56 @@ fn configs(target: &str, universe: u32) -> Vec<Config> {
                 total,
             });
         }
+    };
+    // iterative deepening: every combination with few edits first, the expensive searches last;
+    // (edits before the quote step, edits per history) are sized by measurement: universe 6 takes
+    // about 45 s with 8 jobs on a busy machine
+    if with_seq {
+        for (kind, host, clients, gc) in [(KA, HM, [1, 2], true), (KT, HA, [1, 2], true), (KA, HA, [2, 1], true), (KT, HM, [2, 1], false)] {
+            seq(&mut out, "one_range", kind, host, clients, gc, false, 1, 1);
+        }
+        for (kind, host, clients, gc) in [(KA, HM, [1, 2], true), (KT, HM, [1, 2], true), (KA, HA, [2, 1], false), (KT, HA, [2, 1], true)] {
+            seq(&mut out, "all_ranges", kind, host, clients, gc, true, 1, 1);
+        }
+    }
+    if with_map {
+        maps(&mut out, ops.min(3));
+    }
+    if with_seq && u >= 5 {
+        seq(&mut out, "one_range", KA, HM, [1, 2], true, false, 2, 2);
+        seq(&mut out, "one_range", KT, HA, [1, 2], true, false, 2, 2);
+        seq(&mut out, "one_range", KA, HA, [2, 1], true, false, 2, 2);
+        seq(&mut out, "one_range", KT, HM, [2, 1], false, false, 2, 2);
+        seq(&mut out, "all_ranges", KA, HM, [1, 2], true, true, 2, 2);
+        seq(&mut out, "all_ranges", KT, HM, [1, 2], true, true, 2, 2);
+        seq(&mut out, "all_ranges", KA, HA, [2, 1], false, true, 2, 2);
+        seq(&mut out, "all_ranges", KT, HA, [2, 1], true, true, 2, 2);
+    }
+    if with_map && ops > 3 {
+        out.push(Config {
+            stage: "map_links",
+            kind: Kind::Map,
+            host: HM,
+            clients: [1, 2],
+            gc: true,
+            family: false,
+            max_build: 0,
+            total: ops,
+        });
+    }
+    if with_seq && u >= 6 {
+        seq(&mut out, "all_ranges", KA, HM, [1, 2], true, true, 2, 3);
+        seq(&mut out, "all_ranges", KT, HM, [1, 2], true, true, 2, 3);
+        seq(&mut out, "one_range", KT, HA, [1, 2], true, false, if u >= 7 { 2 } else { 1 }, 3);
+        seq(&mut out, "one_range", KA, HM, [1, 2], true, false, 2, 3);
+    }
+    if with_seq && u >= 7 {
+        seq(&mut out, "all_ranges", KA, HM, [1, 2], true, true, 3, 3);
+        seq(&mut out, "all_ranges", KT, HM, [1, 2], true, true, 3, 3);
+        seq(&mut out, "all_ranges", KA, HM, [2, 1], true, true, 2, 4);
+    }
+    if with_seq && u >= 8 {
+        seq(&mut out, "all_ranges", KT, HM, [2, 1], true, true, 2, 4);
     }
     out
 }
